@@ -866,7 +866,7 @@ type lookup =
     arith -> (z -> t) -> z -> nat -> z -> z -> t -> lookup **)
 
 let search_dim a kn nknots fuel order naxes x =
-  if (||) (a.leb0 x (kn Z0)) (gtb a x (kn (Z.sub nknots (Zpos XH))))
+  if negb ((&&) (gtb a x (kn Z0)) (a.leb0 x (kn (Z.sub nknots (Zpos XH)))))
   then Outside
   else if a.ltb0 x (kn order)
        then Found order
@@ -1470,6 +1470,25 @@ let spline_spec a t0 xs ks =
 let absK a a0 =
   if a.ltb0 a0 a.zero then a.opp0 a0 else a0
 
+(** val dBabs : arith -> (z -> t) -> bool -> nat -> nat -> z -> t -> t **)
+
+let rec dBabs a kn side k n i x =
+  match k with
+  | O -> absK a (bfun a kn side n i x)
+  | S k1 ->
+    (match n with
+     | O -> a.zero
+     | S n1 ->
+       let nz = Z.of_nat n in
+       a.mul0 (a.ofZ nz)
+         (a.add0
+           (wdiv a (dBabs a kn side k1 n1 i x)
+             (absK a (a.sub0 (kn (Z.add i nz)) (kn i))))
+           (wdiv a (dBabs a kn side k1 n1 (Z.add i (Zpos XH)) x)
+             (absK a
+               (a.sub0 (kn (Z.add (Z.add i nz) (Zpos XH)))
+                 (kn (Z.add i (Zpos XH))))))))
+
 (** val tensor_abs :
     arith -> (z -> t) -> dimn list -> t list -> nat list -> z -> t -> t **)
 
@@ -1484,7 +1503,7 @@ let rec tensor_abs a cf ds xs ks pos pr =
         | [] -> a.mul0 pr (absK a (cf pos))
         | k :: ks' ->
           sum_range a (fun i ->
-            let b = absK a (dBfun a d.d_kn (side_of a d x) k d.d_order i x) in
+            let b = dBabs a d.d_kn (side_of a d x) k d.d_order i x in
             if eqbK a b a.zero
             then a.zero
             else tensor_abs a cf ds' xs' ks' (Z.add pos (Z.mul i d.d_stride))
@@ -1657,7 +1676,9 @@ let select_case templates os =
            (&&) (active templates c.dc_templ) (label_is c.dc_ndim (length os)))
            inner with
    | Some c -> Some c
-   | None -> find (fun c -> is_default c.dc_ndim) inner)
+   | None ->
+     find (fun c ->
+       (&&) (active templates c.dc_templ) (is_default c.dc_ndim)) inner)
 
 (** val orders_are : nat list -> nat list -> bool **)
 
